@@ -11,6 +11,10 @@
     counting used by DATEDIF and the two `yearfrac` conventions used by YEARFRAC are hand models of the
     part of the library that is used.
   * The WEEKDAY tuples are read from `Gen.C18Date` (extracted from the source of date.py).
+  * The model mirrors the code after the repairs D44 (serial 59), D46/D56 (DATE bounds), D47 (DATEDIF M/Y by
+    field arithmetic), D48 (`year = int(year)`), D1801 (EDATE/EOMONTH epoch check `<`), D1802 (offset rule
+    `value >= 60`) and D1805 (`try … except (OverflowError, ValueError)` → #NUM!).  D45 (the time of day in
+    `datetime_to_number`) is hard-coded in the suite and is modelled as written.
 -/
 import XlVerif.Base
 import XlVerif.Gen.C18Date
